@@ -568,61 +568,74 @@ package jmespath
 //@   assigns \nothing
 //@   ensures {C17} [not-a-syntax-error] !isSyntaxError(err)
 //@   ensures {C16} err == nil && specJSONVal(result)
+//@   ensures {C09} [ceil] isNum(result) && same(numOf(result), specCeil(numOf(arguments[0])))
 //@ func jpfFloor
 //@   props C05,C10
 //@   requires len(arguments) == 1 && isNum(arguments[0]) && specJSONVal(arguments[0])
 //@   assigns \nothing
 //@   ensures {C17} [not-a-syntax-error] !isSyntaxError(err)
 //@   ensures {C16} err == nil && specJSONVal(result)
+//@   ensures {C09} [floor] isNum(result) && same(numOf(result), specFloor(numOf(arguments[0])))
 //@ func jpfLength
 //@   props C05,C10
 //@   requires len(arguments) == 1 && specJSONVal(arguments[0]) && (isStr(arguments[0]) || isArr(arguments[0]) || isObj(arguments[0]))
 //@   assigns \nothing
 //@   ensures {C17} [not-a-syntax-error] !isSyntaxError(err)
 //@   ensures {C16} err == nil && specJSONVal(result)
+//@   ensures {C09} [length-in-code-points-elements-members] isNum(result) && same(numOf(result), specLength(arguments[0]))
 //@ func jpfStartsWith
 //@   props C05,C10
 //@   requires len(arguments) == 2 && isStr(arguments[0]) && isStr(arguments[1])
 //@   assigns \nothing
 //@   ensures {C17} [not-a-syntax-error] !isSyntaxError(err)
 //@   ensures {C16} err == nil && specJSONVal(result)
+//@   ensures {C09} [starts-with] isBool(result) && (boolOf(result) <==> specStartsWith(strOf(arguments[0]), strOf(arguments[1])))
 //@ func jpfEndsWith
 //@   props C05,C10
 //@   requires len(arguments) == 2 && isStr(arguments[0]) && isStr(arguments[1])
 //@   assigns \nothing
 //@   ensures {C17} [not-a-syntax-error] !isSyntaxError(err)
 //@   ensures {C16} err == nil && specJSONVal(result)
+//@   ensures {C09} [ends-with] isBool(result) && (boolOf(result) <==> specEndsWith(strOf(arguments[0]), strOf(arguments[1])))
 //@ func jpfType
 //@   props C05,C10
 //@   requires len(arguments) == 1 && specJSONVal(arguments[0])
 //@   assigns \nothing
 //@   ensures {C17} [not-a-syntax-error] !isSyntaxError(err)
 //@   ensures {C16} err == nil && isStr(result)
+//@   ensures {C09} [type-name] isStr(result) && strOf(result) == specType(arguments[0])
 //@ func jpfToArray
 //@   props C05,C10
 //@   requires len(arguments) == 1 && specJSONVal(arguments[0])
 //@   assigns \nothing
 //@   ensures {C17} [not-a-syntax-error] !isSyntaxError(err)
 //@   ensures {C16} err == nil && specJSONVal(result) && isArr(result)
+//@   ensures {C09} [arrays-unchanged] isArr(arguments[0]) ==> same(result, arguments[0])
+//@   ensures {C09} [singleton-otherwise] !isArr(arguments[0]) ==> isArr(result) && arrLen(result) == 1 && same(arrAt(result, 0), arguments[0])
 //@ func jpfToString
 //@   props C05,C10
 //@   requires len(arguments) == 1 && specJSONVal(arguments[0])
 //@   assigns \nothing
 //@   ensures {C17} [not-a-syntax-error] !isSyntaxError(err)
 //@   ensures {C16} err == nil && isStr(result)
+//@   ensures {C09} [strings-unchanged] isStr(arguments[0]) ==> same(result, arguments[0])
+//@   ensures {C09} [json-text-that-decodes-back] !isStr(arguments[0]) ==> isStr(result) && specDecodesTo(strOf(result), arguments[0])
 //@ func jpfToNumber
 //@   props C05,C10
 //@   requires len(arguments) == 1 && specJSONVal(arguments[0])
 //@   assigns \nothing
 //@   ensures {C17} [not-a-syntax-error] !isSyntaxError(err)
 //@   ensures {C16} [finite-or-null] err == nil && specJSONVal(result) && (isNil(result) || isNum(result))
+//@   ensures {C09} [to-number] same(result, specToNumber(arguments[0]))
 //@ func jpfNotNull
 //@   props C05,C10
 //@   requires specArgsOK(theFunctionTable()["not_null"].arguments, arguments) && argsOK(arguments)
 //@   assigns \nothing
 //@   ensures {C17} [not-a-syntax-error] !isSyntaxError(err)
 //@   ensures {C16} err == nil && specJSONVal(result)
+//@   ensures {C09} [first-non-null] same(result, specNotNullFrom(arguments, 0))
 //@   loop 1 invariant 0 <= \k && \k <= len(arguments) && specArgsFrom(theFunctionTable()["not_null"].arguments, arguments, \k)
+//@   loop 1 invariant {C09} [nulls-so-far] same(specNotNullFrom(arguments, \k), specNotNullFrom(arguments, 0))
 //@   loop 1 decreases len(arguments) - \k
 
 //@ func jpfAvg
@@ -633,7 +646,9 @@ package jmespath
 //@   ensures {C16,C09} [null-for-empty] err == nil && (arrLen(arguments[0]) == 0 ==> isNil(result))
 //@   assumes [moderate-magnitude] isNum(result) ==> specFinite(numOf(result))
 //@   ensures {C16} [json] specJSONVal(result)
+//@   ensures {C09} [mean-of-the-left-to-right-sum] same(result, specAvg(arrOf(arguments[0])))
 //@   loop 1 invariant 0 <= \k && \k <= arrLen(arguments[0])
+//@   loop 1 invariant {C09} [sum-so-far] same(specSumFrom(args, \k, numerator), specSum(args))
 //@   loop 1 decreases arrLen(arguments[0]) - \k
 
 //@ func jpfSum
@@ -643,7 +658,9 @@ package jmespath
 //@   ensures {C17} [not-a-syntax-error] !isSyntaxError(err)
 //@   assumes [moderate-magnitude] isNum(result) ==> specFinite(numOf(result))
 //@   ensures {C16} [json] err == nil && isNum(result) && specJSONVal(result)
+//@   ensures {C09} [left-to-right-sum] isNum(result) && same(numOf(result), specSum(arrOf(arguments[0])))
 //@   loop 1 invariant 0 <= \k && \k <= len(items)
+//@   loop 1 invariant {C09} [sum-so-far] same(specSumFrom(arrOf(arguments[0]), \k, sum), specSum(arrOf(arguments[0])))
 //@   loop 1 decreases len(items) - \k
 
 //@ func jpfContains
@@ -652,7 +669,10 @@ package jmespath
 //@   assigns \nothing
 //@   ensures {C17} [not-a-syntax-error] !isSyntaxError(err)
 //@   ensures {C16} err == nil && isBool(result)
+//@   ensures {C09} [substring] isStr(arguments[0]) ==> (boolOf(result) <==> (isStr(arguments[1]) && specStrContains(strOf(arguments[0]), strOf(arguments[1]))))
+//@   ensures {C09} [some-element-is-deeply-equal] isArr(arguments[0]) ==> (boolOf(result) <==> specContainsFrom(arrOf(arguments[0]), 0, arguments[1]))
 //@   loop 1 invariant 0 <= \k && \k <= len(general)
+//@   loop 1 invariant {C09} [none-so-far] specContainsFrom(general, \k, el) <==> specContainsFrom(general, 0, el)
 //@   loop 1 decreases len(general) - \k
 
 //@ func jpfKeys
@@ -661,7 +681,9 @@ package jmespath
 //@   assigns \nothing
 //@   ensures {C17} [not-a-syntax-error] !isSyntaxError(err)
 //@   ensures {C16} err == nil && specJSONVal(result) && isArr(result)
+//@   ensures {C09} [every-member-name-once] same(arrOf(result), specKeysFrom(objOf(arguments[0]), 0, specEmptyList()))
 //@   loop 1 invariant 0 <= \k && \k <= objSize(arguments[0]) && !isNil(collected) && allJSON(collected, len(collected))
+//@   loop 1 invariant {C09} [keys-so-far] same(specKeysFrom(arg, \k, collected), specKeysFrom(arg, 0, specEmptyList()))
 //@   loop 1 decreases objSize(arguments[0]) - \k
 
 //@ func jpfValues
@@ -670,7 +692,9 @@ package jmespath
 //@   assigns \nothing
 //@   ensures {C17} [not-a-syntax-error] !isSyntaxError(err)
 //@   ensures {C16} err == nil && specJSONVal(result) && isArr(result)
+//@   ensures {C09} [every-member-value-once] same(arrOf(result), specObjValuesFrom(objOf(arguments[0]), 0, specEmptyList()))
 //@   loop 1 invariant 0 <= \k && \k <= objSize(arguments[0]) && !isNil(collected) && allJSON(collected, len(collected))
+//@   loop 1 invariant {C09} [values-so-far] same(specObjValuesFrom(arg, \k, collected), specObjValuesFrom(arg, 0, specEmptyList()))
 //@   loop 1 decreases objSize(arguments[0]) - \k
 
 //@ func jpfMerge
@@ -679,9 +703,12 @@ package jmespath
 //@   assigns \nothing
 //@   ensures {C17} [not-a-syntax-error] !isSyntaxError(err)
 //@   ensures {C16} err == nil && specJSONVal(result) && isObj(result)
+//@   ensures {C09} [later-arguments-win] same(objOf(result), specMergeFrom(arguments, 0, emptyObj()))
 //@   loop 1 invariant [outer] 0 <= \k && \k <= len(arguments) && specArgsFrom(theFunctionTable()["merge"].arguments, arguments, \k) && !isNil(final) && 0 <= len(final) && (forall k string :: mapHas(final, k) ==> specJSONVal(final[k]))
+//@   loop 1 invariant {C09} [merged-so-far] same(specMergeFrom(arguments, \k, final), specMergeFrom(arguments, 0, emptyObj()))
 //@   loop 1 decreases len(arguments) - \k
 //@   loop 2 invariant [inner] 0 <= \k && \k <= len(mapped) && !isNil(final) && 0 <= len(final) && (forall k string :: mapHas(final, k) ==> specJSONVal(final[k]))
+//@   loop 2 invariant {C09} [members-so-far] same(specPutAllFrom(final, mapped, \k), specPutAllFrom(\entry(final), mapped, 0))
 //@   loop 2 decreases len(mapped) - \k
 
 //@ func jpfJoin
@@ -690,7 +717,9 @@ package jmespath
 //@   assigns \nothing
 //@   ensures {C17} [not-a-syntax-error] !isSyntaxError(err)
 //@   ensures {C16} err == nil && isStr(result)
+//@   ensures {C09} [joined-with-the-separator] isStr(result) && strOf(result) == specJoin(specStrsFrom(arrOf(arguments[1]), 0, emptyStrs()), strOf(arguments[0]))
 //@   loop 1 invariant 0 <= \k && \k <= arrLen(arguments[1])
+//@   loop 1 invariant {C09} [strings-so-far] same(specStrsFrom(arrOf(arguments[1]), \k, arrayStr), specStrsFrom(arrOf(arguments[1]), 0, emptyStrs()))
 //@   loop 1 decreases arrLen(arguments[1]) - \k
 
 //@ func jpfReverse
@@ -699,9 +728,13 @@ package jmespath
 //@   assigns \nothing
 //@   ensures {C17} [not-a-syntax-error] !isSyntaxError(err)
 //@   ensures {C16} err == nil && specJSONVal(result)
+//@   ensures {C09} [code-points-in-reverse-order] isStr(arguments[0]) ==> isStr(result) && len(runesOf(strOf(result))) == len(runesOf(strOf(arguments[0]))) && (forall q int :: 0 <= q && q < len(runesOf(strOf(result))) ==> runesOf(strOf(result))[q] == runesOf(strOf(arguments[0]))[len(runesOf(strOf(result))) - 1 - q])
+//@   ensures {C09} [elements-in-reverse-order] isArr(arguments[0]) ==> isArr(result) && arrLen(result) == arrLen(arguments[0]) && (forall q int :: 0 <= q && q < arrLen(result) ==> same(arrAt(result, q), arrAt(arguments[0], arrLen(result) - 1 - q)))
 //@   loop 1 invariant [runes] 0 <= i && i <= len(r) && j == len(r) - 1 - i
+//@   loop 1 invariant {C09} [swapped-so-far] 2*i <= len(r) + 1 && len(r) == len(runesOf(s)) && (forall q int :: 0 <= q && q < len(r) ==> validRune(r[q])) && (forall q int :: 0 <= q && q < len(r) ==> r[q] == ((q < i || q > j) ? runesOf(s)[len(r) - 1 - q] : runesOf(s)[q]))
 //@   loop 1 decreases len(r) - i
 //@   loop 2 invariant [array] 0 <= \k && \k <= len(items) && length == len(items) && (forall q int :: length - \k <= q && q < length ==> specJSONVal(reversed[q])) && (forall q int :: 0 <= q && q < length - \k ==> isNil(reversed[q]))
+//@   loop 2 invariant {C09} [placed-so-far] (forall q int :: length - \k <= q && q < length ==> same(reversed[q], items[length - 1 - q]))
 //@   loop 2 decreases len(items) - \k
 
 //@ func jpfMax
@@ -710,9 +743,12 @@ package jmespath
 //@   assigns \nothing
 //@   ensures {C17} [not-a-syntax-error] !isSyntaxError(err)
 //@   ensures {C16} err == nil && specJSONVal(result)
+//@   ensures {C09} [maximum] same(result, specMax(arrOf(arguments[0])))
 //@   loop 1 invariant 0 <= \k && \k <= len(items) - 1 && specFinite(best)
+//@   loop 1 invariant {C09} [best-so-far] same(specMaxNumFrom(arrOf(arguments[0]), \k + 1, best), specMaxNumFrom(arrOf(arguments[0]), 1, numOf(arrAt(arguments[0], 0))))
 //@   loop 1 decreases len(items) - 1 - \k
 //@   loop 2 invariant 0 <= \k && \k <= len(items) - 1
+//@   loop 2 invariant {C09} [best-so-far] same(specMaxStrFrom(arrOf(arguments[0]), \k + 1, best), specMaxStrFrom(arrOf(arguments[0]), 1, strOf(arrAt(arguments[0], 0))))
 //@   loop 2 decreases len(items) - 1 - \k
 
 //@ func jpfMin
@@ -721,9 +757,12 @@ package jmespath
 //@   assigns \nothing
 //@   ensures {C17} [not-a-syntax-error] !isSyntaxError(err)
 //@   ensures {C16} err == nil && specJSONVal(result)
+//@   ensures {C09} [minimum] same(result, specMin(arrOf(arguments[0])))
 //@   loop 1 invariant 0 <= \k && \k <= len(items) - 1 && specFinite(best)
+//@   loop 1 invariant {C09} [best-so-far] same(specMinNumFrom(arrOf(arguments[0]), \k + 1, best), specMinNumFrom(arrOf(arguments[0]), 1, numOf(arrAt(arguments[0], 0))))
 //@   loop 1 decreases len(items) - 1 - \k
 //@   loop 2 invariant 0 <= \k && \k <= len(items) - 1
+//@   loop 2 invariant {C09} [best-so-far] same(specMinStrFrom(arrOf(arguments[0]), \k + 1, best), specMinStrFrom(arrOf(arguments[0]), 1, strOf(arrAt(arguments[0], 0))))
 //@   loop 2 decreases len(items) - 1 - \k
 
 //@ func jpfSort
@@ -732,9 +771,16 @@ package jmespath
 //@   assigns \nothing
 //@   ensures {C17} [not-a-syntax-error] !isSyntaxError(err)
 //@   ensures {C16} err == nil && specJSONVal(result) && isArr(result)
+//@   ensures {C09} [same-length] arrLen(result) == arrLen(arguments[0])
+//@   ensures {C09} [numbers-ascending] allNum(arguments[0]) ==> (forall p int :: forall q int :: 0 <= p && p < q && q < arrLen(result) ==> !(numOf(arrAt(result, q)) < numOf(arrAt(result, p))))
+//@   ensures {C09} [strings-ascending-by-code-point] !allNum(arguments[0]) ==> (forall p int :: forall q int :: 0 <= p && p < q && q < arrLen(result) ==> !(strOf(arrAt(result, q)) < strOf(arrAt(result, p))))
+//@   ensures {C09} [every-element-comes-from-the-argument] (forall q int :: 0 <= q && q < arrLen(result) ==> 0 <= \perm(q) && \perm(q) < arrLen(result) && same(arrAt(result, q), arrAt(arguments[0], \perm(q))))
+//@   ensures {C09} [no-element-is-used-twice] (forall p int :: forall q int :: 0 <= p && p < q && q < arrLen(result) ==> \perm(p) != \perm(q))
 //@   loop 1 invariant 0 <= \k && \k <= len(d) && (forall q int :: 0 <= q && q < len(d) ==> specFinite(d[q])) && (forall q int :: 0 <= q && q < \k ==> specJSONVal(final[q])) && (forall q int :: \k <= q && q < len(d) ==> isNil(final[q]))
+//@   loop 1 invariant {C09} [boxed-so-far] (forall q int :: 0 <= q && q < \k ==> isNum(final[q]) && same(numOf(final[q]), d[q]))
 //@   loop 1 decreases len(d) - \k
 //@   loop 2 invariant 0 <= \k && \k <= len(d) && (forall q int :: 0 <= q && q < \k ==> specJSONVal(final[q])) && (forall q int :: \k <= q && q < len(d) ==> isNil(final[q]))
+//@   loop 2 invariant {C09} [boxed-so-far] (forall q int :: 0 <= q && q < \k ==> isStr(final[q]) && strOf(final[q]) == d[q])
 //@   loop 2 decreases len(d) - \k
 
 // --- by-expression functions and the sort adapters
@@ -759,6 +805,8 @@ package jmespath
 //@   assigns byExprFloat.hasError
 //@   ensures [flag-only-set] old(a.hasError) ==> a.hasError
 //@   ensures {C11,C10} [errors-and-bad-keys-latched] \errSeen ==> a.hasError
+//@   ensures {C09} [order] pureTree(a.node) && !a.hasError ==> (result <==> specKeyLessNum(a.node, a.items[i], a.items[j]))
+//@   ensures {C09} [keys-have-the-expected-type] pureTree(a.node) && !a.hasError ==> specKeyIsNum(a.node, a.items[i]) && specKeyIsNum(a.node, a.items[j])
 //@ func (*byExprString).Less
 //@   props C05
 //@   decreases 4*nodeRank(a.node) + 4
@@ -766,6 +814,8 @@ package jmespath
 //@   assigns byExprString.hasError
 //@   ensures [flag-only-set] old(a.hasError) ==> a.hasError
 //@   ensures {C11,C10} [errors-and-bad-keys-latched] \errSeen ==> a.hasError
+//@   ensures {C09} [order] pureTree(a.node) && !a.hasError ==> (result <==> specKeyLessStr(a.node, a.items[i], a.items[j]))
+//@   ensures {C09} [keys-have-the-expected-type] pureTree(a.node) && !a.hasError ==> specKeyIsStr(a.node, a.items[i]) && specKeyIsStr(a.node, a.items[j])
 
 //@ func jpfMap
 //@   props C05,C10
@@ -776,7 +826,11 @@ package jmespath
 //@   assigns \nothing
 //@   ensures {C17} [not-a-syntax-error] !isSyntaxError(err)
 //@   ensures {C16} err == nil ==> specJSONVal(result) && isArr(result)
+//@   ensures {C09} [one-result-per-element-nulls-kept] err == nil ==> arrLen(result) == arrLen(arguments[2])
+//@   ensures {C09} [fails-exactly-when-an-element-fails] pureTree(refOf(arguments[1])) ==> ((err == nil) <==> snd(specMap(refOf(arguments[1]), arrOf(arguments[2]))))
+//@   ensures {C09} [each-element-is-the-current-node-once] pureTree(refOf(arguments[1])) && err == nil ==> same(arrOf(result), fst(specMap(refOf(arguments[1]), arrOf(arguments[2]))))
 //@   loop 1 invariant 0 <= \k && \k <= len(arr) && !isNil(mapped) && allJSON(mapped, len(mapped))
+//@   loop 1 invariant {C09} [mapped-so-far] len(mapped) == \k && (pureTree(node) ==> same(specMapFrom(node, arr, \k, mapped), specMapFrom(node, arr, 0, specEmptyList())))
 //@   loop 1 decreases len(arr) - \k
 
 //@ func jpfMaxBy
@@ -788,9 +842,13 @@ package jmespath
 //@   assigns \nothing
 //@   ensures {C17} [not-a-syntax-error] !isSyntaxError(err)
 //@   ensures {C16} err == nil ==> specJSONVal(result)
+//@   ensures {C09} [fails-exactly-when-a-key-fails-or-has-the-wrong-type] pureTree(refOf(arguments[2])) ==> ((err == nil) <==> snd(specMaxBy(refOf(arguments[2]), arrOf(arguments[1]))))
+//@   ensures {C09} [first-extremal-element-null-for-empty] pureTree(refOf(arguments[2])) && err == nil ==> same(result, fst(specMaxBy(refOf(arguments[2]), arrOf(arguments[1]))))
 //@   loop 1 invariant 0 <= \k && \k <= len(arr) - 1 && specJSONVal(bestItem)
+//@   loop 1 invariant {C09} [best-so-far] pureTree(node) ==> snd(specEval(node, arr[0])) && isNum(fst(specEval(node, arr[0]))) && same(specMaxByNumFrom(node, arr, \k + 1, bestVal, bestItem), specMaxByNumFrom(node, arr, 1, numOf(fst(specEval(node, arr[0]))), arr[0]))
 //@   loop 1 decreases len(arr) - 1 - \k
 //@   loop 2 invariant 0 <= \k && \k <= len(arr) - 1 && specJSONVal(bestItem)
+//@   loop 2 invariant {C09} [best-so-far] pureTree(node) ==> snd(specEval(node, arr[0])) && isStr(fst(specEval(node, arr[0]))) && same(specMaxByStrFrom(node, arr, \k + 1, bestVal, bestItem), specMaxByStrFrom(node, arr, 1, strOf(fst(specEval(node, arr[0]))), arr[0]))
 //@   loop 2 decreases len(arr) - 1 - \k
 
 //@ func jpfMinBy
@@ -802,9 +860,13 @@ package jmespath
 //@   assigns \nothing
 //@   ensures {C17} [not-a-syntax-error] !isSyntaxError(err)
 //@   ensures {C16} err == nil ==> specJSONVal(result)
+//@   ensures {C09} [fails-exactly-when-a-key-fails-or-has-the-wrong-type] pureTree(refOf(arguments[2])) ==> ((err == nil) <==> snd(specMinBy(refOf(arguments[2]), arrOf(arguments[1]))))
+//@   ensures {C09} [first-extremal-element-null-for-empty] pureTree(refOf(arguments[2])) && err == nil ==> same(result, fst(specMinBy(refOf(arguments[2]), arrOf(arguments[1]))))
 //@   loop 1 invariant 0 <= \k && \k <= len(arr) - 1 && specJSONVal(bestItem)
+//@   loop 1 invariant {C09} [best-so-far] pureTree(node) ==> snd(specEval(node, arr[0])) && isNum(fst(specEval(node, arr[0]))) && same(specMinByNumFrom(node, arr, \k + 1, bestVal, bestItem), specMinByNumFrom(node, arr, 1, numOf(fst(specEval(node, arr[0]))), arr[0]))
 //@   loop 1 decreases len(arr) - 1 - \k
 //@   loop 2 invariant 0 <= \k && \k <= len(arr) - 1 && specJSONVal(bestItem)
+//@   loop 2 invariant {C09} [best-so-far] pureTree(node) ==> snd(specEval(node, arr[0])) && isStr(fst(specEval(node, arr[0]))) && same(specMinByStrFrom(node, arr, \k + 1, bestVal, bestItem), specMinByStrFrom(node, arr, 1, strOf(fst(specEval(node, arr[0]))), arr[0]))
 //@   loop 2 decreases len(arr) - 1 - \k
 
 //@ func jpfSortBy
@@ -816,6 +878,11 @@ package jmespath
 //@   assigns \nothing
 //@   ensures {C17} [not-a-syntax-error] !isSyntaxError(err)
 //@   ensures {C16} err == nil ==> specJSONVal(result) && isArr(result)
+//@   ensures {C09} [same-length] err == nil ==> arrLen(result) == arrLen(arguments[1])
+//@   ensures {C09} [every-element-comes-from-the-argument] err == nil && arrLen(arguments[1]) > 0 ==> (forall q int :: 0 <= q && q < arrLen(result) ==> 0 <= \perm(q) && \perm(q) < arrLen(result) && same(arrAt(result, q), arrAt(arguments[1], \perm(q))))
+//@   ensures {C09} [no-element-is-used-twice] err == nil && arrLen(arguments[1]) > 0 ==> (forall p int :: forall q int :: 0 <= p && p < q && q < arrLen(result) ==> \perm(p) != \perm(q))
+//@   ensures {C09} [ascending-by-key] err == nil && arrLen(arguments[1]) > 0 && pureTree(refOf(arguments[2])) ==> (forall p int :: forall q int :: 0 <= p && p < q && q < arrLen(result) ==> !(specKeyIsNum(refOf(arguments[2]), arrAt(arguments[1], 0)) ? specKeyLessNum(refOf(arguments[2]), arrAt(result, q), arrAt(result, p)) : specKeyLessStr(refOf(arguments[2]), arrAt(result, q), arrAt(result, p))))
+//@   ensures {C09} [stable] err == nil && arrLen(arguments[1]) > 0 && pureTree(refOf(arguments[2])) ==> (forall p int :: forall q int :: 0 <= p && p < q && q < arrLen(result) && \perm(p) > \perm(q) ==> (specKeyIsNum(refOf(arguments[2]), arrAt(arguments[1], 0)) ? specKeyLessNum(refOf(arguments[2]), arrAt(result, p), arrAt(result, q)) : specKeyLessStr(refOf(arguments[2]), arrAt(result, p), arrAt(result, q))))
 
 // ---------------------------------------------------------------------------
 // api.go / interpreter construction (C12 C13 C17 and the end-to-end links)
